@@ -11,6 +11,7 @@ import Cuke.Driver.Glue
 import Cuke.Driver.Report
 import Cuke.Driver.Frame
 import Cuke.Driver.Coll
+import Cuke.Driver.Exit
 /-! `cuke-driver`: one request per line on stdin, one response per line on stdout. -/
 open Cuke Cuke.Wire Cuke.Driver
 
@@ -25,6 +26,7 @@ def dispatch (line : String) : String :=
       | "retry.resolve" => handleRetryResolve args
       | "match.find" => handleMatchFind args
       | "pipe.run" => handlePipeRun args
+      | "exit.run" => handleExitRun args
       | "attempt.run" => handleAttemptRun args
       | "mon.c09" => handleMonC09 args
       | "sched.run" => handleSchedRun args
